@@ -641,9 +641,9 @@ def translate(repo):
     body = " else ".join(f"if ft =? {nm_}" + " then [" + "; ".join(f"({a}, {b})" for a, b in rows[nm_]) + "]"
                          for nm_ in ("FAT_TYPE_FAT32", "FAT_TYPE_FAT16", "FAT_TYPE_FAT12"))
     out.append(f"Definition mkfs_table (ft : Z) : list (Z * Z) :=\n  {body} else [].\n")
-    t = FnTr(dict(common, store="s", tables={"num_sec_to_sec_per_clus": "mkfs_table"}))
+    t = FnTr(dict(common, store="s", tables={"num_sec_to_sec_per_clus": "mkfs_table"}, res=True))
     t.bound = {"fat_type", "size", "sector_size", "number_of_fats"}
-    fin = ("(s, num_sec, sec_per_clus, root_ent_cnt, rsvd_sec_cnt, fat_size_16, fat_size_32, total_sectors_16, total_sectors_32)")
+    fin = ("Ok (s, num_sec, sec_per_clus, root_ent_cnt, rsvd_sec_cnt, fat_size_16, fat_size_32, total_sectors_16, total_sectors_32)")
     out.append("Definition mkfs_geometry (s : pf) (fat_type size sector_size number_of_fats : Z) :=\n  let fat_size_32 := 0 in\n  "
                + t.stmts(sel, fin) + ".\n")
     # initial FAT[0]/FAT[1]
